@@ -35,4 +35,16 @@ OPow(a, k) == IF k = 0 THEN OOne ELSE OMul(a, OPow(a, k - 1))
 ORe(a) == <<a[1], RSub(a[2], a[4])>>      \* a0 + (a1 - a3)/sqrt2
 OIm(a) == <<a[3], RAdd(a[2], a[4])>>      \* a2 + (a1 + a3)/sqrt2
 OIsReal(a) == OIm(a) = <<Zero, Zero>>
+
+\* ---- inverse in Q(w): write z = u + w v with u = a0 + a2 i, v = a1 + a3 i in Q(i); the conjugate
+\* over Q(i) sends w -> -w, so z * zbar = u^2 - i v^2 is Gaussian, and a Gaussian is inverted by its norm.
+OConjW(a) == <<a[1], RNeg(a[2]), a[3], RNeg(a[4])>>
+OInv(a) ==
+  LET g  == OMul(a, OConjW(a))                 \* = p + q i  (components 2 and 4 vanish)
+      p  == g[1]  q == g[3]
+      nn == RAdd(RMul(p, p), RMul(q, q))
+      gi == <<RDiv(p, nn), Zero, RNeg(RDiv(q, nn)), Zero>>
+  IN  OMul(OConjW(a), gi)
+ODiv(a, b) == OMul(a, OInv(b))
+OValid(a) == Valid(a[1]) /\ Valid(a[2]) /\ Valid(a[3]) /\ Valid(a[4])
 =============================================================================
